@@ -34,6 +34,7 @@ TEnd ==
     /\ \A t \in Threads : (ip[t] = "done") <=> (\A i \in DOMAIN Ev.blocked : Ev.blocked[i] # t)
     /\ \A t \in Threads : ip[t] # "done" => (ip[t] = "waiting" /\ value < Need(Cur(t)))
     /\ Ev.problems = 0
+    /\ (Ev.final >= 0 => Ev.final = value)          \* value() once everybody has finished
     /\ UNCHANGED vars
 
 Inv == Running => (Conservation /\ WaitSawEnough)
